@@ -60,35 +60,42 @@ class App(object):
 
     # ------------------------------------------------------------------ db
     def raw(self):
-        rc = self.engine.raw_connection()
-        return rc
-
-    def dbapi(self):
-        rc = self.engine.raw_connection()
-        return rc.driver_connection
+        return self.engine.raw_connection()
 
     def snapshot(self):
-        con = self.dbapi()
-        con.commit()
-        return con.serialize()
+        rc = self.engine.raw_connection()
+        try:
+            con = rc.driver_connection
+            con.commit()
+            return con.serialize()
+        finally:
+            rc.close()
 
     def restore(self, snap):
-        con = self.dbapi()
+        rc = self.engine.raw_connection()
         try:
-            con.rollback()
-        except Exception:
-            pass
-        con.deserialize(snap)
+            con = rc.driver_connection
+            try:
+                con.rollback()
+            except Exception:
+                pass
+            con.deserialize(snap)
+        finally:
+            rc.close()
 
     def reset(self):
         self.restore(self._template)
 
     def sql(self, q, args=()):
-        con = self.dbapi()
-        cur = con.execute(q, args)
-        rows = cur.fetchall()
-        con.commit()
-        return rows
+        rc = self.engine.raw_connection()
+        try:
+            con = rc.driver_connection
+            cur = con.execute(q, args)
+            rows = cur.fetchall()
+            con.commit()
+            return rows
+        finally:
+            rc.close()
 
     # ------------------------------------------------------------------ http
     def call(self, method, path, body=None, version='1.39', token=ADMIN, headers=None,
